@@ -20,7 +20,10 @@ def start_texts(tier, kind):
         texts += X.termsums(3, X.TERMS_Q)
         texts += X.flat_chains(3, ["2", "-3", "x", "2x", "x^2", "4x^2", "y"], ("+", "-", "*"))
         texts += X.same_op_groupings(4)
+        texts += X.deep_chains()
+        texts += [t for t in X.FOLD_MAGNITUDES if "=" not in t]
         if tier == "thorough":
+            texts += X.power_nests()
             texts += X.uniform_exact(7, X.LEAVES_SMALL)
             texts += X.termsums(3, X.TERMS_T)
             texts += X.flat_chains(4, ["2", "-3", "x", "2x", "x^2", "4x^2", "y"], ("+", "-", "*"))
@@ -29,7 +32,9 @@ def start_texts(tier, kind):
         texts = [t for t in X.repo_inputs(REPO) if "=" in t]
         heavy = len(texts)
         texts += X.equations()
+        texts += [t for t in X.FOLD_MAGNITUDES if "=" in t]
         texts += X.contexts(1 if tier == "quick" else 2)
+
         texts += X.equations3() if tier == "thorough" else X.equations3(("2", "x", "3x", "0x"), ("+", "*"))
         return texts, heavy
     raise ValueError(kind)
@@ -48,13 +53,36 @@ class Visitor:
         pass
 
 
-def explore_text(acc, visitor, text, depth, want_root):
+def unify_ids(root):
+    """Give structurally identical subtrees the same node ids, position by position - what a tree assembled
+    from a piece and its clone() looks like (clone copies ids).  Returns True if anything was unified."""
+    groups = {}
+    for n in RW.inorder(root):
+        if n.left is None and n.right is None:
+            continue
+        groups.setdefault(SG.sig(n), []).append(n)
+    changed = False
+    for nodes in groups.values():
+        if len(nodes) < 2:
+            continue
+        first = RW.inorder(nodes[0])
+        for other in nodes[1:]:
+            for a, b in zip(first, RW.inorder(other)):
+                if b.id != a.id:
+                    b.id = a.id
+                    changed = True
+    return changed
+
+
+def explore_text(acc, visitor, text, depth, want_root, dup_ids=False):
     """BFS to `depth` from parse(text).  ctx = {'text', 'trace'} identifies each state."""
     RW.reset_configs()  # rule-object state may depend only on this seed's history
     try:
         root = RW.parse(text)
     except Exception:  # noqa - unparsable start texts are C03/C10's business
         acc.count("start_unparsable")
+        return
+    if dup_ids and not unify_ids(root):
         return
     s0 = SG.sig(root)
     is_eq = s0[0] == "="
@@ -68,7 +96,7 @@ def explore_text(acc, visitor, text, depth, want_root):
         cur, s, trace = queue.popleft()
         acc.count("states")
         acc.key(hash(s))
-        ctx = {"text": text, "trace": trace}
+        ctx = {"text": text, "trace": trace, "dup_ids": dup_ids}
         visitor.on_state(acc, ctx, cur, s)
         nodes = RW.inorder(cur)
         for cname, rule in RW.configs():
@@ -152,6 +180,11 @@ def explore_inplace(acc, visitor, text, want_root):
                 except Exception:  # noqa
                     continue
                 RW.scan(cur)
+                for _, r_ in RW.configs():  # search agents list the applicable nodes before choosing one
+                    try:
+                        r_.find_nodes(cur)
+                    except Exception:  # noqa
+                        pass
                 s = SG.sig(cur)
                 cname, index = trace[-1]
                 rule = RW.config(cname)
@@ -172,6 +205,8 @@ def explore_inplace(acc, visitor, text, want_root):
                 except Exception as e:  # noqa
                     error = e
                 visitor.on_transition(acc, dict(ctx, nb=before_nb), None, s, cname, rule, index, node, result, change, error)
+                if error is None and result is not None and hasattr(visitor, "on_live_state"):
+                    visitor.on_live_state(acc, dict(ctx, trace=[list(x) for x in trace]), RW.get_root(result))
 
 
 _TASK = {}
@@ -185,6 +220,8 @@ def _work(task):
     for i in range(lo, hi):
         if depth == "inplace":
             explore_inplace(acc, visitor, texts[i], want_root)
+        elif depth == "dupids":
+            explore_text(acc, visitor, texts[i], 1, want_root, dup_ids=True)
         else:
             explore_text(acc, visitor, texts[i], depth, want_root)
     return acc
@@ -255,6 +292,8 @@ def reexplore(case, vis_factory):
     visitor = vis_factory()
     if case.get("inplace"):
         explore_inplace(acc, visitor, case["text"], "any")
+    elif case.get("dup_ids"):
+        explore_text(acc, visitor, case["text"], 1, "any", dup_ids=True)
     else:
         explore_text(acc, visitor, case["text"], len(case.get("trace", [])) + 1, "any")
     return [(core, ent["examples"][0]["detail"]) for core, ent in acc.viol.items()]
